@@ -10,6 +10,45 @@ TRUST = ("TLC 1.8 and the TLA+ semantics; harness/absmap.py (gamma builds real o
          "alpha reads public props/paths/errors); the bounded universes stated in the evidence file")
 
 CHECKS = {
+ "C01": dict(
+    text="TLC explores the generate/validate machine spec/MC_Val.tla: every scalar schema reachable by <=2 (quick) / "
+         "<=3 (thorough) DSL calls plus ~1,850 container schemas (nesting <=2, all list forms, optional/relaxed "
+         "dicts, any, alias, custom), each observed under every cyclic tape of boundary draw outcomes, and checks on "
+         "the operational generator model that a satisfiable schema yields a conforming value. Every (schema, tape) "
+         "is replayed on the real generator with d42.generation._random's `random` scripted to the same outcomes; "
+         "TLC validates the recorded events against spec/Trace_C01.tla (fake() returned, the real validate() accepts "
+         "the value, the spec's Conforms accepts it).",
+    design="7 C01", technique="TLA+ generator model + TLC over schema x draw-tape space; tapes replayed into the real "
+                              "generator; events trace-validated by TLC"),
+ "C02": dict(
+    text="On spec/MC_Val.tla TLC checks that the operational validator model (spec/D42Validate.tla Errors) reports "
+         "no errors exactly when the declarative meaning (spec/D42Meaning.tla Conforms) holds, for every schema of "
+         "the universe and every probe value (generated value, one-step edits at every depth, unrelated values). "
+         "The same (schema, value) pairs are passed to the real validate() and `==`; TLC validates each recorded "
+         "verdict against Conforms (spec/Trace_Val.tla, Prop=C02) and compares kind+path of every real error with "
+         "the operational model (drift).",
+    design="7 C02", technique="declarative vs operational TLA+ semantics model-checked with TLC; real verdicts "
+                              "trace-validated by TLC against the declarative meaning"),
+ "C03": dict(
+    text="Same machine as C02; TLC checks ErrorTrue (path leads to the reported sub-value, the stated fact holds) for "
+         "every error of the operational model, and for every error recorded from the real validator, together with "
+         "the real th.get(value, error.path) and the rendered message (non-empty, names the path).",
+    design="7 C03", technique="TLA+ error-truth predicate model-checked with TLC; real errors trace-validated by TLC"),
+ "C08": dict(
+    text="Same machine as C02 with the hostile-value zoo (non-finite/huge numbers, Decimal/Fraction, tuples, sets, "
+         "bytearray, subclasses of built-ins, non-v4 UUIDs, UUID look-alikes, opaque objects, unusual dict keys) alone "
+         "and injected at every position of a generated value. TLC checks the operational model never escapes with an "
+         "exception; the real validate(), error formatting, validate_or_fail and format_result are observed on the "
+         "same cases and validated by spec/Trace_Val.tla (Prop=C08).",
+    design="7 C08", technique="TLA+ validator model with Python failure modes, TLC; real calls trace-validated by TLC"),
+ "C11": dict(
+    text="TLC explores spec/MC_C11.tla: every set of <=2 (quick) / <=3 (thorough) distinct non-value refinements of "
+         "int/float/str/list, optionally after each accepted value call, and checks on the operational DSL model that "
+         "all permutations give the same outcome; every set is replayed on the real DSL in every order and the recorded "
+         "outcomes (exception types, real == / != between results, abstracted props) are validated by "
+         "spec/Trace_C11.tla.",
+    design="7 C11", technique="TLA+ DSL model, permutations enumerated by TLC; all orders replayed on the real DSL; "
+                              "events trace-validated by TLC"),
  "C10": dict(
     text="TLC explores every chain of <=3 (quick) / <=4 (thorough) DSL calls over valid, boundary, contradictory and "
          "wrongly-typed arguments for all 11 declarable types on the operational model spec/D42Declare.tla and checks "
